@@ -34,10 +34,16 @@ pub enum Call {
     Reset,
     /// set_length with the value the bar already has: still an ordinary redraw request
     SetSameLength,
+    /// inc(0): what the I/O adaptors issue at end of file - a position request like any other
+    IncZero,
 }
 
 #[derive(Debug, Clone, Serialize, Deserialize)]
 pub struct RateCase {
+    /// the bars are created complete (length 0): position == length for the whole history unless a
+    /// position call changes that - being complete must not switch the throttling off
+    #[serde(default)]
+    full: bool,
     rate: u8,
     /// 0 standalone, 1 first bar of a MultiProgress, 2 calls alternate between two bars of a MultiProgress
     mode: u8,
@@ -81,16 +87,17 @@ fn run_rate(c: &RateCase) -> CaseResult {
     let mk = |tag: &'static str| -> ProgressStyle { ProgressStyle::with_template(&format!("{tag} {{pos}}|{{len}}|{{msg}}")).unwrap() };
     let mut mp = None;
     let mut bars: Vec<Bar> = vec![];
+    let len0: u64 = if c.full { 0 } else { 100 };
     if c.mode % 3 == 0 {
-        let pb = ProgressBar::with_draw_target(Some(100), target).with_message("m0");
+        let pb = ProgressBar::with_draw_target(Some(len0), target).with_message("m0");
         pb.set_style(mk("A"));
-        bars.push(Bar { pb, tag: "A", pos: 0, len: 100, msg: 0 });
+        bars.push(Bar { pb, tag: "A", pos: 0, len: len0, msg: 0 });
     } else {
         let m = MultiProgress::with_draw_target(target);
         for tag in ["A", "B"] {
-            let pb = m.add(ProgressBar::with_draw_target(Some(100), ProgressDrawTarget::hidden()).with_message("m0"));
+            let pb = m.add(ProgressBar::with_draw_target(Some(len0), ProgressDrawTarget::hidden()).with_message("m0"));
             pb.set_style(mk(tag));
-            bars.push(Bar { pb, tag, pos: 0, len: 100, msg: 0 });
+            bars.push(Bar { pb, tag, pos: 0, len: len0, msg: 0 });
         }
         mp = Some(m);
     }
@@ -114,6 +121,7 @@ fn run_rate(c: &RateCase) -> CaseResult {
             near_multiple |= *k % 25 > 0;
         }
         let bi = if c.mode % 3 == 2 { i % 2 } else { 0 };
+        let call = &if c.full && matches!(call, Call::Inc | Call::SetPosition | Call::Dec | Call::SetLength) { Call::SetSameLength } else { *call };
         let before = vt.nflush();
         {
             let b = &mut bars[bi];
@@ -128,6 +136,7 @@ fn run_rate(c: &RateCase) -> CaseResult {
                     b.pb.set_length(b.len);
                 }
                 Call::SetSameLength => b.pb.set_length(b.len),
+                Call::IncZero => b.pb.inc(0),
                 Call::Inc => {
                     b.pos += 1;
                     b.pb.inc(1);
@@ -149,7 +158,7 @@ fn run_rate(c: &RateCase) -> CaseResult {
             }
         }
         let painted = vt.nflush() > before;
-        if matches!(call, Call::Inc | Call::SetPosition | Call::Dec) && !painted {
+        if matches!(call, Call::Inc | Call::SetPosition | Call::Dec | Call::IncZero) && !painted {
             let l = bars[bi].line();
             acceptable[bi].push(l);
         } else {
@@ -157,7 +166,7 @@ fn run_rate(c: &RateCase) -> CaseResult {
         }
         let ctx = format!("call #{i} {call:?} at t={now} ns (gap {g} ns, rate {r}/s, mode {})", c.mode % 3);
         // staleness: a request one refresh interval after the last painted frame is painted
-        let is_pos = matches!(call, Call::Inc | Call::SetPosition | Call::Dec);
+        let is_pos = matches!(call, Call::Inc | Call::SetPosition | Call::Dec | Call::IncZero);
         let due = match last_paint {
             None => true,
             Some(lp) => now - lp >= interval + if is_pos { 1_000_000 } else { 0 },
@@ -206,6 +215,7 @@ fn run_rate(c: &RateCase) -> CaseResult {
     v.label_if(near_multiple, "gap_at_interval_multiple");
     v.label_if(c.calls.iter().any(|(g, _)| matches!(g, Gap::Hours(_) | Gap::Secs(_))), "refill_after_long_gap");
     v.label_if(c.mode % 3 != 0, "multi_progress_target");
+    v.label_if(c.full, "bar_complete_the_whole_time");
     Ok(v)
 }
 
@@ -228,7 +238,8 @@ fn rate_strategy(tier: Tier) -> BoxedStrategy<RateCase> {
     let n = tier.pick(400, 2000);
     let call = prop_oneof![4 => Just(Call::Tick), 2 => Just(Call::SetMessage), 1 => Just(Call::SetLength), 1 => Just(Call::SetSameLength), 3 => Just(Call::Inc), 1 => Just(Call::SetPosition), 1 => Just(Call::Dec)];
     let rate = || prop_oneof![2 => prop_oneof![Just(1u8), Just(3), Just(7), Just(20), Just(30), Just(60), Just(255)], 1 => 1u8..=255];
-    let free = (rate(), 0u8..3, proptest::collection::vec((gap_strategy(), call.clone()), 30..n)).prop_map(|(rate, mode, calls)| RateCase { rate, mode, calls });
+    let call = prop_oneof![14 => call, 1 => Just(Call::IncZero)];
+    let free = (rate(), 0u8..3, proptest::collection::vec((gap_strategy(), call.clone()), 30..n), proptest::bool::weighted(0.15)).prop_map(|(rate, mode, calls, full)| RateCase { full, rate, mode, calls });
     // the burst is used up at the creation instant, then requests arrive exactly at, one ns before and
     // one ns after whole refresh intervals (the boundary of "at least one refresh interval after the
     // last painted frame"), then anything
@@ -244,7 +255,7 @@ fn rate_strategy(tier: Tier) -> BoxedStrategy<RateCase> {
             let mut calls: Vec<(Gap, Call)> = (0..burst).map(|_| (Gap::Zero, Call::Tick)).collect();
             calls.extend(edges);
             calls.extend(tail);
-            RateCase { rate, mode, calls }
+            RateCase { full: burst % 2 == 0 && rate % 3 == 0, rate, mode, calls }
         });
     prop_oneof![3 => free, 1 => boundary].boxed()
 }
@@ -268,10 +279,10 @@ fn decode_rate(u: &mut FuzzInput) -> RateCase {
             14 => Gap::Secs(u.u16()),
             _ => Gap::Hours(u.u8()),
         };
-        let call = [Call::Tick, Call::Tick, Call::SetMessage, Call::SetLength, Call::SetSameLength, Call::Inc, Call::Inc, Call::SetPosition, Call::Dec][u.n(8)];
+        let call = [Call::Tick, Call::Tick, Call::SetMessage, Call::SetLength, Call::SetSameLength, Call::Inc, Call::Inc, Call::SetPosition, Call::Dec, Call::IncZero][u.n(9)];
         calls.push((gap, call));
     }
-    RateCase { rate, mode, calls }
+    RateCase { full: u.n(6) == 0, rate, mode, calls }
 }
 
 // position bucket: burst 10, one token per millisecond
